@@ -356,34 +356,56 @@ def sc_inf(case, fails):
     e0 = L.e0_tfi(p['g'], p['J'])
     psi = MPS.from_lat_product_state(M.lat, [['up']])
     o = dict(mixer=True, max_E_err=1e-10, trunc_params=dict(chi_max=20, svd_min=1e-10), max_trunc_err=None, max_sweeps=80,
-             start_env=case['opts']['start_env'], update_env=case['opts']['update_env'], N_sweeps_check=4)
+             start_env=case['opts']['start_env'], update_env=case['opts']['update_env'], N_sweeps_check=4,
+             combine=case['opts']['combine'])
     if case['opts']['start_env_sites'] is not None:
         o['start_env_sites'] = case['opts']['start_env_sites']
-    cls = dmrg.TwoSiteDMRGEngine if Lc >= 2 else dmrg.SingleSiteDMRGEngine
-    eng = cls(psi, M, o)
+    single = case['engine'] == 'SingleSiteDMRGEngine'
+    eng = getattr(dmrg, case['engine'])(psi, M, o)
     E, psi = eng.run()
-    if abs(E - e0) > 1e-6:
-        fails.append(('inf.idmrg-energy-density', f'E={E!r} e0={e0!r} opts={o}'))
-    if np.max(np.abs(psi.norm_test())) > 1e-6:
-        fails.append(('inf.result-not-canonical', f'{np.max(np.abs(psi.norm_test())):.2e}'))
+    nt = float(np.max(np.abs(psi.norm_test())))
+    E_bond = float(np.mean(psi.expectation_value(M.H_bond)))
+    converged = eng.sweeps < o['max_sweeps']
+    if nt > 1e-6:
+        fails.append(('inf.result-not-canonical', f'{nt:.2e}'))
+        return
+    if E_bond < e0 - 1e-7:
+        fails.append(('inf.energy-density-of-the-state-below-exact', f'{E_bond!r} < {e0!r}'))
+    if converged and abs(E - E_bond) > 1e-6:
+        sig = 'inf.reported-energy-differs-from-the-energy-density-of-the-returned-state'
+        if single and o['update_env'] % 2 == 1:
+            sig += '.single-site.odd-update_env'
+        fails.append((sig, f'E={E!r} mean bond energy={E_bond!r} exact={e0!r} ratio={E / E_bond:.4f} opts={o}'))
+    if converged and abs(E_bond - e0) > 1e-5 and p['g'] > 1:
+        fails.append(('inf.converged-energy-density-not-reached', f'{E_bond!r} vs {e0!r}'))
     # environment sweeps only grow the environments; state unchanged
     ages0 = (eng.env.get_LP_age(0), eng.env.get_RP_age(Lc - 1))
     before = psi.copy()
-    eng.environment_sweeps(2)
-    ages1 = (eng.env.get_LP_age(0), eng.env.get_RP_age(Lc - 1))
-    if not (ages1[0] > ages0[0] and ages1[1] > ages0[1]):
-        fails.append(('inf.environment_sweeps-do-not-grow-the-environments', f'{ages0} -> {ages1}'))
-    if abs(abs(psi.overlap(before)) - 1) > 1e-6:
-        fails.append(('inf.environment_sweeps-change-the-state', f'{abs(psi.overlap(before))!r}'))
-    # environments from the transfer matrix / the iterative builder: energy per site
+    try:
+        eng.environment_sweeps(2)
+        ages1 = (eng.env.get_LP_age(0), eng.env.get_RP_age(Lc - 1))
+        if not (ages1[0] > ages0[0] and ages1[1] > ages0[1]):
+            fails.append(('inf.environment_sweeps-do-not-grow-the-environments', f'{ages0} -> {ages1}'))
+        if abs(abs(psi.overlap(before)) - 1) > 1e-6:
+            fails.append(('inf.environment_sweeps-change-the-state', f'{abs(psi.overlap(before))!r}'))
+    except ValueError as e:
+        if 'incompatible LegCharge' not in str(e):
+            raise
+        # post_run_cleanup called psi.canonical_form(), which changed the bond dimensions; engine.env still holds the
+        # environments of the state before
+        chi_env = eng.env.get_LP(0).get_leg('vR').ind_len if eng.env.has_LP(0) else None
+        fails.append(('inf.engine-environments-do-not-fit-psi-after-run', f'chi(psi)={before.chi} chi(LP[0])={chi_env}'))
+    psi = before
+    # environments from the transfer matrix / the iterative builder: energy per site of the same state
     data, Etm, eps = MPOTransferMatrix.find_init_LP_RP(M.H_MPO, psi, calc_E=True)
     Etm = float(np.real(np.mean(Etm)))      # (returned as [E_right, E_left])
-    if abs(Etm - e0) > 1e-6:
-        fails.append(('inf.MPOTransferMatrix.energy-per-site', f'{Etm!r} vs {e0!r}'))
-    env = MPOEnvironment(psi, M.H_MPO, psi, **data)
-    env.test_sanity()
+    # (the transfer-matrix energy is sensitive to errors of the canonical form — documented; the iterative one is not;
+    #  observed deviations up to ~1e-4 on converged states with norm_test ~1e-9: sanity bound only)
+    if abs(Etm - E_bond) > 1e-3:
+        fails.append(('inf.MPOTransferMatrix.energy-per-site', f'{Etm!r} vs bond energy {E_bond!r}'))
+    MPOEnvironment(psi, M.H_MPO, psi, **data).test_sanity()
     data2, _, Eit = MPOEnvironmentBuilder(M.H_MPO, psi).init_LP_RP_iterative('both', calc_E=True)
     Eit = float(np.real(np.mean(np.atleast_1d(Eit))))
-    if abs(Eit - e0) > 1e-6:
-        fails.append(('inf.init_LP_RP_iterative.energy-per-site', f'{Eit!r} vs {e0!r} (L={Lc})'))
+    if abs(Eit - E_bond) > 1e-7:
+        fails.append(('inf.init_LP_RP_iterative.energy-per-site', f'{Eit!r} vs bond energy {E_bond!r} (L={Lc})'))
     MPOEnvironment(psi, M.H_MPO, psi, **data2).test_sanity()
